@@ -227,8 +227,10 @@ func (t Typed) Compile(i FeatureIndex, w World) search.Iterator {
 		begin, end = FeatureIDAreaBegin, FeatureIDAreaEnd
 	case FeatureTypeRelation:
 		begin, end = FeatureIDRelationBegin, FeatureIDRelationEnd
+	case FeatureTypeCollection, FeatureTypeExpression:
+		begin, end = FeatureID{Type: t.Type, Namespace: NamespaceInvalid}, FeatureID{Type: t.Type + 1, Namespace: NamespaceInvalid}
 	default:
-		panic("Bad FeatureType")
+		return search.NewEmptyIterator()
 	}
 	return search.KeyRange{Begin: begin, End: end, Query: adaptQuery{Query: t.Query, World: w}}.Compile(i)
 }
